@@ -87,6 +87,27 @@ class PropInfo:
         return p
 
 
+_FLIP = {ast.Lt: ast.Gt, ast.LtE: ast.GtE, ast.Gt: ast.Lt, ast.GtE: ast.LtE, ast.Eq: ast.Eq, ast.NotEq: ast.NotEq}
+
+
+def _constant_like(e):
+    if isinstance(e, ast.Constant) and e.value is not None and not isinstance(e.value, bool):
+        return True
+    if isinstance(e, ast.UnaryOp) and isinstance(e.op, (ast.USub, ast.UAdd)) and isinstance(e.operand, ast.Constant):
+        return True
+    if isinstance(e, ast.Attribute) and isinstance(e.value, ast.Name) and e.value.id in ("numpy", "np", "math") and e.attr in ("inf", "Inf", "infty", "nan", "NaN", "pi"):
+        return True
+    return False
+
+
+def _canonicalise_comparisons(tree):
+    """`0 < x` is read as `x > 0`: a single comparison whose LEFT side only is a literal is turned round (same meaning for numbers and arrays),
+    so that no rule depends on which side of a comparison a literal was written"""
+    for n in ast.walk(tree):
+        if isinstance(n, ast.Compare) and len(n.ops) == 1 and type(n.ops[0]) in _FLIP and _constant_like(n.left) and not _constant_like(n.comparators[0]):
+            n.left, n.comparators, n.ops = n.comparators[0], [n.left], [_FLIP[type(n.ops[0])]()]
+
+
 class ClassInfo:
     def __init__(self, module, node):
         self.module = module
@@ -115,6 +136,7 @@ class Module:
         self.relpath = relpath
         self.src = src
         self.tree = ast.parse(src, filename=path)
+        _canonicalise_comparisons(self.tree)
         self.imports = {}  # local name -> ("module", dotted) | ("from", module, attr)
         self.classes = {}
         self.functions = {}
